@@ -198,6 +198,111 @@ Proof. induction a; [reflexivity|exact IHa]. Qed.
 
 
 (* ------------------------------------------------------------------------------------------- *)
+(* re-spacing: white space after any of the tokens, other white space where there was some *)
+
+Definition is_skip (r : rtoken) : bool := match r_kind r with KSkip => true | _ => false end.
+
+Definition starts_ws (s : list N) : Prop := match s with c :: _ => is_ws_char c = true | [] => False end.
+
+(* the new text of a token: a skipped token (white space) is replaced by [u], any other token is followed by [u] *)
+Definition nt (ru : rtoken * list N) : list N :=
+  if is_skip (fst ru) then snd ru else r_text (fst ru) ++ snd ru.
+
+Definition weave (rus : list (rtoken * list N)) : list N := concat (map nt rus).
+
+Definition u_ok (ru : rtoken * list N) : Prop :=
+  forallb is_ws_char (snd ru) = true /\ (is_skip (fst ru) = true -> snd ru <> []).
+
+Definition tok_sane (r : rtoken) : Prop :=
+  r_text r <> [] /\ (is_skip r = true -> forallb is_ws_char (r_text r) = true).
+
+(* the old and the new text have a common prefix, after which both end or the new one goes on with white space *)
+Definition agree (y y' : list N) : Prop :=
+  exists p rest rest', y = p ++ rest /\ y' = p ++ rest' /\
+    ((rest = [] /\ rest' = []) \/ (starts_ws rest' /\ (p = [] -> starts_ws rest))).
+
+Lemma weave_agree : forall rus, Forall u_ok rus -> Forall tok_sane (map fst rus) ->
+  agree (concat (map r_text (map fst rus))) (weave rus).
+Proof.
+  induction rus as [|[r u] tl IH]; intros Hu Hs.
+  { exists [], [], []. repeat split. left. split; reflexivity. }
+  inversion Hu as [|? ? [Hu1 Hu2] Hu']; subst. cbn [map fst] in Hs. inversion Hs as [|? ? [Hx Hsk] Hs']; subst.
+  cbn [fst snd] in *. specialize (IH Hu' Hs'). unfold weave. cbn [map concat fst]. unfold nt at 1. cbn [fst snd].
+  fold (weave tl). destruct (is_skip r) eqn:Esk.
+  - exists [], (r_text r ++ concat (map r_text (map fst tl))), (u ++ weave tl). repeat split. right. split.
+    + destruct u as [|w u']; [exfalso; apply (Hu2 eq_refl); reflexivity|]. cbn [forallb] in Hu1.
+      apply andb_prop in Hu1. exact (proj1 Hu1).
+    + intros _. specialize (Hsk eq_refl). destruct (r_text r) as [|c x']; [congruence|]. cbn [forallb] in Hsk.
+      apply andb_prop in Hsk. exact (proj1 Hsk).
+  - destruct u as [|w u'].
+    + destruct IH as (p & rest & rest' & E & E' & D). exists (r_text r ++ p), rest, rest'.
+      rewrite E, E', app_nil_r, !app_assoc. repeat split.
+      destruct D as [D|[D1 D2]]; [left; exact D|right; split; [exact D1|]].
+      intros X. apply app_eq_nil in X. destruct X as [X _]. congruence.
+    + exists (r_text r), (concat (map r_text (map fst tl))), ((w :: u') ++ weave tl). rewrite <- app_assoc. repeat split.
+      right. split; [cbn [forallb] in Hu1; apply andb_prop in Hu1; exact (proj1 Hu1)|]. intros X. congruence.
+Qed.
+
+Lemma map_fst_combine {A B} : forall (a : list A) (b : list B), length b = length a -> map fst (combine a b) = a.
+Proof.
+  induction a as [|x a IH]; intros b H; [reflexivity|]. destruct b as [|y b]; [discriminate H|].
+  cbn [combine map fst]. f_equal. apply IH. cbn [length] in H. lia.
+Qed.
+
+(* ---- CRLF line ends ---- *)
+Definition crlf (s : list N) : list N := flat_map (fun c => if (c =? 10)%N then [13%N; 10%N] else [c]) s.
+
+Definition is_nl_tok (r : rtoken) : bool := eqb_list (r_text r) [10%N].
+Definition cr_before (rs : list rtoken) : list N :=
+  match rs with r :: _ => if is_nl_tok r then [13%N] else [] | [] => [] end.
+Fixpoint cr_us (rs : list rtoken) : list (list N) :=
+  match rs with
+  | [] => []
+  | r :: rs' => ((if is_skip r then r_text r else []) ++ cr_before rs') :: cr_us rs'
+  end.
+(* no line break inside a token (a string, or a piece of text that is no token) *)
+Definition nl_alone (r : rtoken) : bool := is_nl_tok r || negb (existsb (N.eqb 10) (r_text r)).
+
+Lemma eqb_list_eq : forall a b, eqb_list a b = true -> a = b.
+Proof.
+  induction a as [|x a IH]; intros [|y b] H; cbn [eqb_list] in H; try discriminate H; [reflexivity|].
+  apply andb_prop in H. destruct H as [H1 H2]. apply N.eqb_eq in H1. subst y. f_equal. apply IH. exact H2.
+Qed.
+
+Lemma crlf_no_nl x : existsb (N.eqb 10) x = false -> crlf x = x.
+Proof.
+  induction x as [|c x IH]; intros H; [reflexivity|]. cbn [existsb] in H. apply orb_false_elim in H. destruct H as [H1 H2].
+  unfold crlf. cbn [flat_map]. fold (crlf x). rewrite (IH H2). rewrite N.eqb_sym in H1. rewrite H1. reflexivity.
+Qed.
+
+Lemma crlf_weave : forall rs, forallb nl_alone rs = true ->
+  crlf (concat (map r_text rs)) = cr_before rs ++ weave (combine rs (cr_us rs)).
+Proof.
+  induction rs as [|r rs IH]; intros H; [reflexivity|]. cbn [forallb] in H. apply andb_prop in H. destruct H as [H1 H2].
+  cbn [map concat cr_us combine]. unfold weave. cbn [map concat]. fold (weave (combine rs (cr_us rs))).
+  unfold crlf. rewrite flat_map_app. fold (crlf (r_text r)). fold (crlf (concat (map r_text rs))). rewrite (IH H2).
+  assert (X : nt (r, (if is_skip r then r_text r else []) ++ cr_before rs) = r_text r ++ cr_before rs).
+  { unfold nt. cbn [fst snd]. destruct (is_skip r); reflexivity. }
+  rewrite X. rewrite <- !app_assoc. cbn [cr_before]. unfold nl_alone in H1.
+  destruct (is_nl_tok r) eqn:En.
+  - unfold is_nl_tok in En. apply eqb_list_eq in En. rewrite En. reflexivity.
+  - cbn [orb] in H1. apply negb_true_iff in H1. rewrite (crlf_no_nl _ H1). reflexivity.
+Qed.
+
+Lemma cr_us_length rs : length (cr_us rs) = length rs.
+Proof. induction rs as [|r rs IH]; [reflexivity|]. cbn [cr_us length]. rewrite IH. reflexivity. Qed.
+
+Lemma cr_us_ok : forall rs, Forall tok_sane rs -> Forall u_ok (combine rs (cr_us rs)).
+Proof.
+  induction rs as [|r rs IH]; intros H; [constructor|]. inversion H as [|? ? [Hx Hsk] H']; subst.
+  cbn [cr_us combine]. constructor; [|apply IH; exact H']. split; cbn [fst snd].
+  - rewrite forallb_app. apply andb_true_intro. split.
+    + destruct (is_skip r); [apply Hsk; reflexivity|reflexivity].
+    + unfold cr_before. destruct rs as [|r2 rs2]; [reflexivity|]. destruct (is_nl_tok r2); reflexivity.
+  - intros E. rewrite E. intros X. apply app_eq_nil in X. destruct X as [X _]. exact (Hx X).
+Qed.
+
+(* ------------------------------------------------------------------------------------------- *)
 (* a table whose patterns are white-space free except one string, one comment and one white-space pattern of the
    shapes above (checked by computation for the regenerated table, see Props/C14.v) *)
 
@@ -725,5 +830,209 @@ Proof.
   apply (ws_insert_rks ws Hne Hws rs1 s1 s2 Hc H).
 Qed.
 
+
+(* ------------------------------------------------------------------------------------------- *)
+(* re-spacing *)
+
+Hypothesis H_skip : skip_ok t = true.
+
+Lemma allw_LS : allw LS = false.
+Proof. reflexivity. Qed.
+
+Lemma step_to_LS c l : cl l -> step_live c l = LS -> l = LS.
+Proof.
+  intros Hc E. inversion Hc as [l' Hall El| | | |]; subst.
+  - exfalso. pose proof (allw_step c l Hall) as X. rewrite E, allw_LS in X. discriminate X.
+  - reflexivity.
+  - exfalso. rewrite step_L1 in E. destruct (c =? 47)%N eqn:E47.
+    + apply N.eqb_eq in E47. rewrite E47 in E. replace (step_live 47 A1) with (@nil (pat * re)) in E by (symmetry; exact H_47). discriminate E.
+    + rewrite app_nil_r in E. pose proof (allw_step c A1 allw_A1) as X. rewrite E, allw_LS in X. discriminate X.
+  - exfalso. rewrite step_LC in E. destruct (c =? 10)%N; discriminate E.
+  - exfalso. rewrite step_LW in E. destruct (is_ws_char c); discriminate E.
+Qed.
+
+(* inside a string nothing has been accepted yet *)
+Lemma scan_state_LS : forall x l n b v, cl l -> (l = LS -> b = None) ->
+  match scan_state l x n b v with
+  | Done _ _ => True
+  | Alive l' _ b' _ => l' = LS -> b' = None
+  end.
+Proof.
+  induction x as [|c x IH]; intros l n b v Hc Hb; [exact Hb|].
+  cbn [scan_state]. destruct (step_live c l) as [|e l'] eqn:E; [exact I|]. rewrite <- E.
+  pose proof (IH (step_live c l) (S n)
+                (match best_nullable (step_live c l) None with Some p => Some (S n, p) | None => b end) (S n)
+                (cl_step c l Hc)) as X.
+  assert (Hb' : step_live c l = LS ->
+                match best_nullable (step_live c l) None with Some p => Some (S n, p) | None => b end = None).
+  { intros El. rewrite El, bn_LS. apply Hb. apply (step_to_LS c l Hc El). }
+  specialize (X Hb'). rewrite E in X |- *. exact X.
+Qed.
+
+Lemma scan_state_start_LS c x :
+  match scan_state (start_live t) (c :: x) 0 None 0 with
+  | Done _ _ => True
+  | Alive l' _ b' _ => l' = LS -> b' = None
+  end.
+Proof.
+  cbn [scan_state]. destruct (step_live c (start_live t)) as [|e l'] eqn:E; [exact I|].
+  pose proof (cl_first c) as Hc. rewrite E in Hc.
+  apply scan_state_LS; [exact Hc|]. intros El. rewrite El, bn_LS. reflexivity.
+Qed.
+
+(* the rest of the input is replaced by something that starts with white space: the token that lies within
+   the prefix is not changed, except in three situations *)
+Lemma scan_cut c x0 rest w r' : is_ws_char w = true ->
+  tlen (scan (start_live t) ((c :: x0) ++ rest) 0 None 0) <= length (c :: x0) ->
+  (fst (scan (start_live t) ((c :: x0) ++ w :: r') 0 None 0) = fst (scan (start_live t) ((c :: x0) ++ rest) 0 None 0) /\
+   (fst (scan (start_live t) ((c :: x0) ++ rest) 0 None 0) = None ->
+    snd (scan (start_live t) ((c :: x0) ++ w :: r') 0 None 0) = snd (scan (start_live t) ((c :: x0) ++ rest) 0 None 0)))
+  \/ (tlen (scan (start_live t) ((c :: x0) ++ rest) 0 None 0) = length (c :: x0) /\
+      (rest = [] \/ ~ starts_ws rest \/
+       exists n, fst (scan (start_live t) ((c :: x0) ++ rest) 0 None 0) = Some (n, pW))).
+Proof.
+  intros Hw Hlen. set (x := c :: x0) in *.
+  rewrite (scan_app x rest), (scan_app x (w :: r')) in *.
+  pose proof (scan_state_start c x0) as St. pose proof (scan_state_start_LS c x0) as SL. fold x in St, SL.
+  destruct (scan_state (start_live t) x 0 None 0) as [b v|l n b v].
+  { left. split; reflexivity. }
+  destruct St as (Hc & Hj & -> & Hn). assert (En : n = length x) by (unfold x; cbn [length]; exact Hn). clear Hn.
+  destruct (scan_mono rest l n b n) as [Mv Mb].
+  assert (Fb : fst (scan l rest n b n) = b).
+  { destruct Mb as [E|(m & p & E & Hm)]; [exact E|]. exfalso.
+    destruct (scan l rest n b n) as [bo vo]. cbn [fst] in E. subst bo. cbn [tlen] in Hlen. lia. }
+  assert (Fv : fst (scan l rest n b n) = None -> snd (scan l rest n b n) = n).
+  { intros E. destruct (scan l rest n b n) as [bo vo]. cbn [fst snd] in *. rewrite E in Hlen. cbn [tlen] in Hlen. lia. }
+  assert (DeadCase : step_live w l = [] ->
+            fst (scan l (w :: r') n b n) = fst (scan l rest n b n) /\
+            (fst (scan l rest n b n) = None -> snd (scan l (w :: r') n b n) = snd (scan l rest n b n))).
+  { intros Hd. rewrite (scan_dead w r' l n b n Hd). cbn [fst snd]. split; [symmetry; exact Fb|].
+    intros E. symmetry. apply Fv. exact E. }
+  inversion Hc as [l' Hall El| | | |]; subst l.
+  - left. apply DeadCase. apply allw_ws_dead; assumption.
+  - (* inside a string *)
+    right. specialize (SL eq_refl). subst b. specialize (Fv Fb).
+    assert (Tl : tlen (scan LS rest n None n) = n).
+    { destruct (scan LS rest n None n) as [bo vo]. cbn [fst snd] in *. subst bo vo. cbn [tlen]. unfold x in En. cbn [length] in En. lia. }
+    split; [rewrite Tl; exact En|]. left.
+    destruct rest as [|c1 y1]; [reflexivity|]. exfalso. cbn [scan] in Fv.
+    rewrite step_LS in Fv. destruct (c1 =? 34)%N.
+    + destruct (scan_mono y1 LSe (S n) (match best_nullable LSe None with Some p => Some (S n, p) | None => None end) (S n)) as [[A|A] _];
+        unfold LSe in *; lia.
+    + destruct (scan_mono y1 LS (S n) (match best_nullable LS None with Some p => Some (S n, p) | None => None end) (S n)) as [[A|A] _];
+        unfold LS in *; lia.
+  - left. apply DeadCase. apply ws_L1. exact Hw.
+  - (* inside a comment *)
+    right. unfold J in Hj. rewrite bn_LC in Hj. subst b.
+    split; [destruct (scan LC rest n (Some (n, pC)) n) as [bo vo]; cbn [fst] in Fb; subst bo; cbn [tlen]; exact En|].
+    right. left. intros Hs. destruct rest as [|w2 y1]; [exact Hs|]. cbn [starts_ws] in Hs.
+    cbn [scan] in Fb. rewrite (ws_LC w2 Hs) in Fb.
+    assert (Fb' : fst (scan LC y1 (S n) (Some (S n, pC)) (S n)) = Some (n, pC)) by exact Fb. clear Fb. rename Fb' into Fb.
+    destruct (scan_mono y1 LC (S n) (Some (S n, pC)) (S n)) as [_ [B|(m & p & B & Hm)]]; rewrite B in Fb.
+    + injection Fb as Fb. lia.
+    + injection Fb as Fb _. lia.
+  - (* inside a white-space run *)
+    right. unfold J in Hj. rewrite bn_LW in Hj. subst b.
+    split; [destruct (scan LW rest n (Some (n, pW)) n) as [bo vo]; cbn [fst] in Fb; subst bo; cbn [tlen]; exact En|].
+    right. right. exists n. exact Fb.
+Qed.
+
+(* a token that is not skipped is not changed when the text after it is re-spaced *)
+Lemma tail_respace x y y' r : next_raw t (x ++ y) = r -> r_text r = x -> x <> [] -> is_skip r = false ->
+  y <> [] -> agree y y' -> next_raw t (x ++ y') = r.
+Proof.
+  intros Hr Ht Hx Hsk Hy (p & rest & rest' & -> & -> & D).
+  destruct D as [[-> ->]|[Hs Hp]]; [exact Hr|].
+  destruct rest' as [|w r']; [destruct Hs|]. cbn [starts_ws] in Hs.
+  destruct x as [|c0 x0]; [congruence|].
+  assert (Hl : tlen (scan (start_live t) ((c0 :: x0) ++ p ++ rest) 0 None 0) = length (c0 :: x0)).
+  { rewrite <- text_len by discriminate. rewrite Hr. rewrite Ht. reflexivity. }
+  pose proof (scan_cut c0 (x0 ++ p) rest w r' Hs) as Cut.
+  change (c0 :: x0 ++ p) with ((c0 :: x0) ++ p) in Cut. rewrite <- !app_assoc in Cut.
+  assert (Lx : length ((c0 :: x0) ++ p) = length (c0 :: x0) + length p) by apply app_length.
+  specialize (Cut ltac:(rewrite Hl, Lx; lia)).
+  destruct Cut as [[Ef Ev]|[Tl Bad]].
+  - rewrite !next_raw_build in *. rewrite <- Hr. apply build_ext; [exact Ef|exact Ev|].
+    rewrite Hl. rewrite !firstn_app_le by apply Nat.le_refl. reflexivity.
+  - exfalso. rewrite Hl, Lx in Tl. assert (Ep : p = []) by (destruct p; [reflexivity|cbn [length] in Tl; lia]).
+    subst p. specialize (Hp eq_refl). cbn [app] in *. destruct Bad as [->|[Bad|(n & Bad)]].
+    + destruct Hp.
+    + exact (Bad Hp).
+    + rewrite next_raw_build in Hr. destruct (scan (start_live t) (c0 :: x0 ++ rest) 0 None 0) as [bo vo].
+      cbn [fst] in Bad. subst bo. subst r. unfold is_skip in Hsk. cbn [build] in Hsk. rewrite H_cbW in Hsk. discriminate Hsk.
+Qed.
+
+Lemma raw_lex_sane s f : length s <= f -> Forall tok_sane (raw_lex f t s).
+Proof.
+  intros H. pose proof (raw_lex_ok t f s H) as R. set (rs0 := raw_lex f t s) in *. clearbody rs0. clear H.
+  induction R as [|s0 r rs Hne Hok _ IH]; [constructor|]. constructor; [|exact IH].
+  split; [apply (raw_ok_text_nonempty t s0 r Hok)|].
+  intros Hk. assert (Ek : r_kind r = KSkip) by (unfold is_skip in Hk; destruct (r_kind r); congruence).
+  pose proof (skip_text_ws t s0 r H_skip Hok Ek) as F. apply forallb_forall. rewrite Forall_forall in F. exact F.
+Qed.
+
+Theorem respace_rks : forall rus s, s = concat (map r_text (map fst rus)) ->
+  raw_lex (length s) t s = map fst rus -> Forall u_ok rus ->
+  rks (raw_lex (length (weave rus)) t (weave rus)) = rks (raw_lex (length s) t s).
+Proof.
+  induction rus as [|[r u] tl IH]; intros s Es H Hu.
+  { cbn in Es. subst s. reflexivity. }
+  cbn [map fst concat] in Es, H. set (x := r_text r) in *. set (y := concat (map r_text (map fst tl))) in *.
+  inversion Hu as [|? ? [Hu1 Hu2] Hu']; subst. cbn [fst snd] in Hu1, Hu2.
+  assert (Hr : next_raw t (x ++ y) = r /\ x <> [] /\ raw_lex (length y) t y = map fst tl).
+  { destruct (x ++ y) as [|c rest] eqn:E0; [discriminate H|].
+    cbn [length raw_lex] in H. injection H as Hr Ht.
+    pose proof (next_raw_nonempty (c :: rest) ltac:(discriminate)) as Hx. rewrite Hr in Hx. fold x in Hx.
+    split; [exact Hr|split; [exact Hx|]]. rewrite Hr in Ht. fold x in Ht. rewrite <- E0 in Ht. rewrite skipn_app_len in Ht.
+    rewrite <- Ht. symmetry. apply raw_lex_fuel.
+    assert (length (c :: rest) = length (x ++ y)) by (rewrite E0; reflexivity).
+    rewrite app_length in H. cbn [length] in H. destruct x; [congruence|cbn [length] in H; lia]. }
+  destruct Hr as (Hr & Hx & Ht).
+  specialize (IH y eq_refl Ht Hu').
+  rewrite (rks_step x y r Hx Hr eq_refl).
+  unfold weave. cbn [map concat]. fold (weave tl). unfold nt. cbn [fst snd]. fold x.
+  destruct (is_skip r) eqn:Esk.
+  - (* white space replaced by white space *)
+    rewrite (lead_ws u (weave tl) (Hu2 eq_refl) Hu1), IH.
+    unfold rk. unfold is_skip in Esk. destruct (r_kind r); try discriminate Esk. reflexivity.
+  - assert (Sane : Forall tok_sane (map fst tl)) by (rewrite <- Ht; apply raw_lex_sane; apply Nat.le_refl).
+    rewrite <- app_assoc.
+    assert (Hr' : next_raw t (x ++ weave tl) = r).
+    { clear IH H Hu. destruct tl as [|ru2 tl2]; [exact Hr|].
+      apply (tail_respace x y (weave (ru2 :: tl2)) r Hr eq_refl Hx Esk); [|apply weave_agree; assumption].
+      cbn [map] in Sane. inversion Sane as [|? ? [Hx2 _] _].
+      unfold y. cbn [map concat]. intros X. apply app_eq_nil in X. destruct X as [X _]. exact (Hx2 X). }
+    destruct u as [|w u'].
+    + cbn [app]. rewrite (rks_step x (weave tl) r Hx Hr' eq_refl), IH. reflexivity.
+    + rewrite (ws_insert_rks (w :: u') ltac:(discriminate) Hu1 [r] x (weave tl) ltac:(cbn [map concat]; apply app_nil_r)
+                 (raw_lex_step x (weave tl) r Hx Hr' eq_refl)).
+      rewrite (rks_step x (weave tl) r Hx Hr' eq_refl), IH. reflexivity.
+Qed.
+
+(* the statement on source texts: [s'] is [s] with other white space between the tokens *)
+Theorem respace : forall s u0 us, length us = length (raw_lex (length s) t s) ->
+  forallb is_ws_char u0 = true -> Forall u_ok (combine (raw_lex (length s) t s) us) ->
+  kinds (lex t (u0 ++ weave (combine (raw_lex (length s) t s) us))) = kinds (lex t s).
+Proof.
+  intros s u0 us Hl Hu0 Hu. unfold lex. rewrite !kinds_place.
+  set (rus := combine (raw_lex (length s) t s) us) in *.
+  assert (Ef : map fst rus = raw_lex (length s) t s) by (apply map_fst_combine; exact Hl).
+  assert (X : rks (raw_lex (length (weave rus)) t (weave rus)) = rks (raw_lex (length s) t s)).
+  { apply respace_rks; [rewrite Ef; symmetry; apply raw_lex_tiles|symmetry; exact Ef|exact Hu]. }
+  destruct u0 as [|w u0']; [exact X|]. rewrite lead_ws; [exact X|discriminate|exact Hu0].
+Qed.
+
+(* CRLF line ends instead of LF line ends, when no token contains a line break other than the line-break token *)
+Theorem crlf_same s : forallb nl_alone (raw_lex (length s) t s) = true ->
+  kinds (lex t (crlf s)) = kinds (lex t s).
+Proof.
+  intros H. set (rs := raw_lex (length s) t s) in *.
+  assert (E : crlf s = cr_before rs ++ weave (combine rs (cr_us rs))).
+  { rewrite <- (crlf_weave rs H). unfold rs. rewrite raw_lex_tiles. reflexivity. }
+  rewrite E. apply respace.
+  - apply cr_us_length.
+  - unfold cr_before. destruct rs as [|r2 rs2]; [reflexivity|]. destruct (is_nl_tok r2); reflexivity.
+  - apply cr_us_ok. apply raw_lex_sane. apply Nat.le_refl.
+Qed.
 
 End Table.
